@@ -3,6 +3,8 @@ NOTES = ("All checks are model-based: explicit TLA+ specifications in spec/ chec
          "implementation by replaying TLC behaviours into the real code and validating recorded executions "
          "against trace specifications (see DESIGN.md). Exit 2 = machinery failure.")
 ENGINES = [
+    {"name": "index", "path": "harness/indexcheck.py", "serves_properties": ["C10"],
+     "kind_free_text": "IndexMgr.tla model checked; query histories on the real store judged by IndexTrace.tla"},
     {"name": "crash", "path": "harness/crashcheck.py", "serves_properties": ["C04"],
      "kind_free_text": "StoreProto.tla model checked; crash images of the real stores judged by CrashTrace.tla; gate sequences validated by StoreProtoTrace.tla"},
     {"name": "race", "path": "harness/racecheck.py", "serves_properties": ["C05"],
@@ -46,6 +48,10 @@ def table(dav):
         "TLC explores all interleavings of two writers in the implementation-shaped model StoreProto.tla (one action per file-system step) against the linearizability property Lin.tla; the real tree-git and bare-git stores are then run under systematically enumerated interleavings of their file-system steps (audit-hook scheduler: every preemption point, thorough: two preemptions; shared store object and separate store objects) and every execution is judged by TLC against Lin.tla. Races that the unchanged code has are listed in known_findings.json by store kind, operation kinds, clause and window.",
         "TLA+ model checking (TLC) of the write protocol + deterministic schedule enumeration on the real code judged by a TLA+ linearizability spec",
         "Preemption only at file-system events (audit hook); pure-Python sections between two events are not scheduled; exceptions raised under ref-lock contention count as a locked refusal if they had no effect; harness/compat.py."))
+    checks.append(other("C10", "index", "model_checking",
+        "TLC checks exhaustively (small scope, thresholds 0 and 1) that the index protocol of IndexMgr.tla - one action per step of AutoIndexManager/MemoryIndex/_iter_with_filter_indexes - is transparent under the soundness assumption on extracted values, and shows that a lossy extraction breaks it. TLC-simulated histories are replayed on the real store (Store API on tree/bare/memory/vdir and HTTP REPORT, thresholds 0,1,2,default) and random histories over 14 filters and 16 body classes (several components, TZID, DATE, unparseable files) are executed; every query is compared by TLC (IndexTrace.tla) with a history-free evaluation, and the real manager state (desired counters, available keys) is checked against the model step by step.",
+        "TLA+ model checking (TLC) of the index protocol + trace validation of recorded query histories against the spec",
+        "The oracle is the real filter.check() run by a store object that never answered a query (C11 covers check() itself); known findings identified by the classes of the differing members; harness/compat.py."))
     na = [{"property_id": p, "reason": "check not built yet in this round; planned in DESIGN.md section 5"}
-          for p in ALL if p not in claimed + ["C04", "C05"]]
+          for p in ALL if p not in claimed + ["C04", "C05", "C10"]]
     return checks, na
